@@ -162,8 +162,10 @@ def run(chk, tier):
         ('first_ttl > MAX_TTL', (r'Gt\(self\.first_ttl\.0, %d\)' % MAXTTL, 1)),
         ('max_ttl > MAX_TTL', (r'Gt\(self\.max_ttl\.0, %d\)' % MAXTTL, 1)),
     ]
+    from ..tables import canon
+    rejects_c = {canon(a, v) for a, v in rejects if isinstance(v, int)}
     for name, (rx, val) in need:
-        if any(re.fullmatch(rx, a) and v == val for a, v in rejects):
+        if any(re.fullmatch(rx, a) and v == val for a, v in rejects) or canon(rx.replace('\\', ''), val) in rejects_c:
             chk.ok('R4', 'rejects:' + name)
         else:
             chk.fail('R4', 'rejects:' + name, fn_loc(fb), 'Builder::build does not reject %s (rejecting conditions: %s)' % (name, sorted(rejects)[:6]),
